@@ -454,6 +454,10 @@ func c03Run1(c *fw.Ctx) {
 		alpha = c03Alphabet
 	}
 	n = len(alpha)
+	if c.Shard == 0 {
+		c.Extra("depth_bound_completed", int64(depth))
+		c.Extra("alphabet_size", int64(n))
+	}
 	sampled := 0
 	exploreTree(c, n, depth, func(h []int) bool {
 		var hist []string
